@@ -925,6 +925,9 @@ impl Rig {
                 let k = sha256::Hash::hash(dtx.compute_txid().as_byte_array());
                 let cipher = chacha20poly1305::ChaCha20Poly1305::new(chacha20poly1305::Key::from_slice(k.as_byte_array()));
                 let blob = cipher.encrypt(&chacha20poly1305::Nonce::default(), plain.as_ref()).unwrap();
+                if let Some((k, p)) = rec.sym.blobs.get(&blob).cloned() {
+                    return (blob, k, p); // the same bytes were built before (encryption is deterministic): same identity
+                }
                 rec.sym.garbled += 1;
                 let g = rec.sym.garbled;
                 rec.sym.blobs.insert(blob.clone(), (-g, 0));
@@ -1081,7 +1084,12 @@ impl Rig {
         let mut rec = self.rec.lock().unwrap();
         let synced = rec.spv_tip == Some(node_tip);
         let tip = rec.sym.block(&node_tip);
-        rec.emit(json!({"act": "PollEnd", "res": res, "tip": tip, "synced": synced, "propagated": r.is_err() && reported}), &abort);
+        // the block the listeners were actually brought to (the polled tip when every block could be delivered)
+        let spv = match rec.spv_tip {
+            Some(h) => rec.sym.block(&h),
+            None => 0,
+        };
+        rec.emit(json!({"act": "PollEnd", "res": res, "tip": tip, "spv": spv, "synced": synced, "propagated": r.is_err() && reported}), &abort);
         r.is_ok()
     }
 
@@ -1240,6 +1248,10 @@ impl Rig {
                     let synced = rec.spv_tip == Some(node_tip);
                     let mut f = call.fields.clone();
                     f["synced"] = json!(synced);
+                    f["spv"] = json!(match rec.spv_tip {
+                        Some(h) => rec.sym.block(&h),
+                        None => 0,
+                    });
                     f["propagated"] = json!(!ok && reported);
                     f.as_object_mut().unwrap().remove("node_tip");
                     rec.emit(f, &abort);
@@ -1396,6 +1408,28 @@ impl Rig {
                     (v, None)
                 });
                 (json!({"op": "get", "who": who, "l": l}), job)
+            }
+            "sub" => {
+                let u = op["u"].as_i64().unwrap();
+                let (sig, who) = self.sign_class(u, b"get subscription info", b"", "valid");
+                let rec = self.rec.clone();
+                let job: Job = Box::new(move || {
+                    let rt = tokio::runtime::Builder::new_current_thread().enable_all().build().unwrap();
+                    let v = rt.block_on(async {
+                        match api.get_subscription_info(Request::new(common_msgs::GetSubscriptionInfoRequest { signature: sig })).await {
+                            Ok(resp) => {
+                                let m = resp.into_inner();
+                                let rec = rec.lock().unwrap();
+                                let mut locs: Vec<i64> = m.locators.iter().map(|l| *rec.sym.loc_sym.get(l).unwrap_or(&-1)).collect();
+                                locs.sort();
+                                json!({"code": "ok", "slots": m.available_slots / scale, "expiry": m.subscription_expiry, "locators": locs})
+                            }
+                            Err(s) => code_of(&s),
+                        }
+                    });
+                    (v, None)
+                });
+                (json!({"op": "sub", "who": who}), job)
             }
             "poll" => {
                 let mut monitor = self.tower.as_mut().unwrap().monitor.take().expect("chain monitor busy");
